@@ -238,6 +238,63 @@ func TestC13(t *testing.T) {
 type ConcCase struct {
 	Parsers  []ParserCase `json:"parsers"`
 	Decoders []DecCase    `json:"decoders"`
+	// Schedule: the instances are also run interleaved on one goroutine,
+	// operation by operation: entry k names the parser instance (modulo their
+	// number) that executes its next operation; the list is used cyclically
+	// until all histories are finished.
+	Schedule []int `json:"schedule,omitempty"`
+}
+
+// runInterleaved executes the parser histories on one goroutine, one operation
+// at a time in the order of the schedule. An instance whose history is
+// finished is dropped by its caller: the slices it was given are the caller's
+// again and are overwritten.
+func runInterleaved(c ConcCase) [][]any {
+	n := len(c.Parsers)
+	xs := make([]*parserExec, n)
+	next := make([]int, n)
+	res := make([][]any, n)
+	left := 0
+	for i, pc := range c.Parsers {
+		x, err := newParserExec(pc.Cfg)
+		if err != nil {
+			res[i] = []any{"rejected"}
+			continue
+		}
+		x.keepRes = true
+		x.trackSlices = true
+		xs[i] = x
+		if len(pc.Ops) > 0 {
+			left++
+		} else {
+			res[i] = x.results
+		}
+	}
+	for k := 0; left > 0; k++ {
+		i := k % n
+		if len(c.Schedule) > 0 {
+			i = ((c.Schedule[k%len(c.Schedule)] % n) + n) % n
+		}
+		if xs[i] == nil || next[i] >= len(c.Parsers[i].Ops) {
+			// pick the next unfinished instance instead
+			for d := 1; d <= n; d++ {
+				j := (i + d) % n
+				if xs[j] != nil && next[j] < len(c.Parsers[j].Ops) {
+					i = j
+					break
+				}
+			}
+		}
+		x := xs[i]
+		x.step(c.Parsers[i].Ops[next[i]])
+		next[i]++
+		if next[i] == len(c.Parsers[i].Ops) {
+			res[i] = x.results
+			x.release()
+			left--
+		}
+	}
+	return res
 }
 
 func runParserResults(c ParserCase) []any {
@@ -275,6 +332,14 @@ func checkConc(c ConcCase, rounds int) (string, bool) {
 	seqD := make([][]any, len(c.Decoders))
 	for i, dc := range c.Decoders {
 		seqD[i] = runDecoderResult(dc)
+	}
+	if len(c.Parsers) > 1 {
+		for i, r := range runInterleaved(c) {
+			if !reflect.DeepEqual(seqP[i], r) {
+				return fmt.Sprintf("parser instance %d (%s) returns different results when the operations of other instances are interleaved with its own (one goroutine): %s",
+					i, c.Parsers[i].Cfg.Kind, firstDiff(seqP[i], r)), true
+			}
+		}
 	}
 	for r := 0; r < rounds; r++ {
 		conP := make([][]any, len(c.Parsers))
@@ -346,6 +411,50 @@ func TestC13Conc(t *testing.T) {
 			matches += x.nMatches
 			c.Parsers = append(c.Parsers, x.Case())
 		}
+		if rapid.IntRange(0, 5).Draw(t, "largeInstances") == 0 {
+			// instances whose buffers grow past 64 KiB (allocation
+			// strategies differ up there), one of them starting from a
+			// caller slice with spare capacity that it outgrows
+			for i := rapid.IntRange(2, 3).Draw(t, "nLarge"); i > 0; i-- {
+				kind := rapid.SampledFrom([]string{"HP", "DHP", "BUP", "BHP"}).Draw(t, "largeKind")
+				cfg := PCfg{Kind: kind, BufferSize: rapid.SampledFrom([]int{0, 262144, 1 << 20, 150_000}).Draw(t, "largeBuf"),
+					HashBits: 12, HashBits1: 12, HashBits2: 12}
+				if kind == "DHP" {
+					cfg.HashBits = 0
+				} else {
+					cfg.HashBits1, cfg.HashBits2 = 0, 0
+				}
+				x, err := newParserExec(cfg)
+				if err != nil {
+					continue
+				}
+				stream := largeStream(t, 200_000)
+				pos := 0
+				take := func(n int) []byte {
+					if pos+n > len(stream) {
+						pos = 0
+					}
+					pos += n
+					return stream[pos-n : pos]
+				}
+				if rapid.Bool().Draw(t, "startWithReset") {
+					n := rapid.IntRange(60_000, 90_000).Draw(t, "resetLen")
+					x.step(POp{Op: "reset", Data: take(n), Cap: rapid.SampledFrom([]int{7, 100, 40_000}).Draw(t, "resetCapLarge")})
+				}
+				for k := rapid.IntRange(1, 4).Draw(t, "nChunks"); k > 0 && !x.dead; k-- {
+					x.step(POp{Op: "write", Data: take(rapid.IntRange(1, 60_000).Draw(t, "chunk"))})
+					for j := rapid.IntRange(0, 3).Draw(t, "nParse"); j > 0 && !x.dead; j-- {
+						x.step(POp{Op: "parse"})
+					}
+					if rapid.Bool().Draw(t, "readAtLarge") {
+						x.step(POp{Op: "readat", Off: genOffset(t, x), Len: rapid.IntRange(0, 5000).Draw(t, "raLen")})
+					}
+				}
+				if !x.dead {
+					c.Parsers = append(c.Parsers, x.Case())
+				}
+			}
+		}
 		nd := rapid.IntRange(1, 6).Draw(t, "nDecoders")
 		for i := 0; i < nd; i++ {
 			dc := DecCase{Vehicle: rapid.SampledFrom([]string{"dec", "dbuf"}).Draw(t, "vehicle"), Cfg: genDCfg(t)}
@@ -356,6 +465,9 @@ func TestC13Conc(t *testing.T) {
 			genDecHistory(t, x, decOpts{vehicle: dc.Vehicle, maxOps: 20, hostile: 10, bigSizes: 30, reset: 1})
 			x.finish()
 			c.Decoders = append(c.Decoders, x.Case())
+		}
+		for k := rapid.IntRange(0, 40).Draw(t, "scheduleLen"); k > 0; k-- {
+			c.Schedule = append(c.Schedule, rapid.IntRange(0, 15).Draw(t, "scheduleAt"))
 		}
 		if dir := os.Getenv("VERIF_FAIL_DIR"); dir != "" {
 			// the race detector stops the process: keep the running case
